@@ -662,8 +662,9 @@ def replay(ctx, doc):
                                    "completed": "P_pipe_completed imatch"},
                                   [coq_pipe(c, o, table)], tag="replay")
     else:
-        res = core.run_case_files(ID, "c17case", IMPORTS,
-                                  {k: k for k in ("holds_spec", "holds_kept", "holds_iff", "holds_idem", "holds_idem_guarded")},
+        res = core.run_case_files(ID, "string * c17case", IMPORTS,
+                                  {k: f"fun x => {k} (snd x)" for k in ("holds_spec", "holds_kept", "holds_iff", "holds_idem",
+                                                                        "holds_idem_guarded")},
                                   [coq_case(c, o, table)], tag="replay")
     print("false predicates:", [k for k, v in res.items() if v])
     return 1 if any(res.values()) else 0
